@@ -262,13 +262,24 @@ func RunParent(m *Monitor, o ParentOpts) int {
 	os.Rename(tmp, filepath.Join(evDir, m.ID+".json"))
 
 	// verdict lines
-	keys := make([]string, 0, len(total.Known))
-	for k := range total.Known {
+	keys := make([]string, 0, len(open))
+	for k := range open {
 		keys = append(keys, k)
 	}
 	sort.Strings(keys)
 	for _, k := range keys {
-		fmt.Printf("KNOWN-FINDING: property=%s class=%s count=%d %s (e.g. %s)\n", m.ID, k, total.Known[k], open[k], total.KnownBrief[k])
+		desc := open[k]
+		if i := strings.Index(desc, ". Predicate"); i > 0 {
+			desc = desc[:i]
+		}
+		if len(desc) > 260 {
+			desc = desc[:260] + "..."
+		}
+		if total.Known[k] > 0 {
+			fmt.Printf("KNOWN-FINDING: property=%s class=%s observed=%d %s (e.g. %s)\n", m.ID, k, total.Known[k], desc, total.KnownBrief[k])
+		} else {
+			fmt.Printf("KNOWN-FINDING: property=%s class=%s observed=0 (listed, not met by this run) %s\n", m.ID, k, desc)
+		}
 	}
 	ckeys := make([]string, 0, len(total.Counters))
 	for k := range total.Counters {
